@@ -91,3 +91,31 @@ CASES += [
     dict(id='c05-eq-startswith-rfind0', prop='C05', file=K, expect=None, old=_SW, new="          && (mWord.rfind( other.mWord, 0) == 0);"),
     dict(id='c05-eq-startswith-find', prop='C05', file=K, expect=None, old=_SW, new="          && (mWord.find( other.mWord) == 0);"),
 ]
+
+HC = 'src/library/prog_args/handler.cpp'
+CASES += [
+    dict(id='c05-keyspace-subgroup-add', prop='C05', file=HC, expect='R5',
+         old="   // normal and sub-group arguments of a handler share one key space\n   mArguments.checkArgMix( \"arguments\", \"sub-group arguments\", mSubGroupArgs);\n", new=""),
+    dict(id='c05-keyspace-normal-add', prop='C05', file=HC, expect='R5',
+         old="   // normal and sub-group arguments of a handler share one key space\n   mSubGroupArgs.checkArgMix( \"sub-group arguments\", \"arguments\", mArguments);\n", new=""),
+    dict(id='c05-keyspace-lookup-no-exact-test', prop='C05', file=HC, expect='R5',
+         old="   if ((p_arg_hdl != nullptr) && !(p_arg_hdl->key() == key))\n   {", new="   if (false)\n   {"),
+    dict(id='c05-keyspace-lookup-no-other-container', prop='C05', file=HC, expect='R5',
+         old="      if (auto const other = mArguments.findArg( key))\n      {\n         if (!(other->key() == key))",
+         new="      if (auto const other = p_arg_hdl)\n      {\n         if (!(other->key() == key))"),
+    dict(id='c05-eq-keyspace-check-before-desc', prop='C05', file=HC, expect=None,
+         old="   mSubGroupArgs.addArgument( arg_hdl, key);\n   mDescription.addArgument( desc, arg_hdl);\n\n   // normal and sub-group arguments of a handler share one key space\n   mArguments.checkArgMix( \"arguments\", \"sub-group arguments\", mSubGroupArgs);\n",
+         new="   mSubGroupArgs.addArgument( arg_hdl, key);\n   mArguments.checkArgMix( \"arguments\", \"sub-group arguments\", mSubGroupArgs);\n   mDescription.addArgument( desc, arg_hdl);\n"),
+]
+
+GC = 'src/library/prog_args/groups.cpp'
+CASES += [
+    dict(id='c08-flag-mask-clears-membership', prop='C08', file=GC, expect='R4',
+         old="      mHandlerFlags -= Handler::hfListArgGroups;", new="      mHandlerFlags &= Groups2HandlerFlags & ~Handler::hfListArgGroups;"),
+    dict(id='c08-flag-ctor-no-membership', prop='C08', file=GC, expect='R4',
+         old="   mHandlerFlags( (flag_set & Groups2HandlerFlags) | Handler::hfInGroup),", new="   mHandlerFlags( flag_set & Groups2HandlerFlags),"),
+    dict(id='c08-flag-not-passed', prop='C08', file=GC, expect='R4',
+         old="                                            mHandlerFlags | this_handler_flags,", new="                                            this_handler_flags,"),
+    dict(id='c08-eq-flag-and-not', prop='C08', file=GC, expect=None,
+         old="      mHandlerFlags -= Handler::hfListArgGroups;", new="      mHandlerFlags &= ~Handler::hfListArgGroups;"),
+]
